@@ -78,7 +78,6 @@ Definition q_o (q : quad) : N := snd q.
 Definition g_eqb : gname -> gname -> bool := opt_eqb N.eqb.
 Definition quad_eqb (a b : quad) : bool :=
   g_eqb (q_g a) (q_g b) && N.eqb (q_s a) (q_s b) && N.eqb (q_p a) (q_p b) && N.eqb (q_o a) (q_o b).
-Definition memN (a : N) (l : list N) : bool := existsb (N.eqb a) l.
 
 (* Term::atoms: the non-triple constituents, in order (fuel = nesting depth bound) *)
 Fixpoint atoms (fuel : nat) (ks : list tk) (t : N) : list N :=
